@@ -31,6 +31,11 @@ pub fn stable_unassigned(c: char) -> bool {
         || matches!(cp, 0x0378 | 0x0379 | 0x0380..=0x0383 | 0x038B | 0x038D | 0x03A2 | 0x0530 | 0x0557 | 0x0558)
 }
 
+/// code points the generators never produce: unassigned in UCD 14.0 but possibly assigned later
+pub fn outside_domain(c: char) -> bool {
+    is_cn(c) && !stable_unassigned(c)
+}
+
 fn is_cn(c: char) -> bool {
     // unassigned in UCD 14.0 = FORBIDDEN but neither Cc, Cf nor Co
     let cp = c as u32;
